@@ -1112,7 +1112,9 @@ func isDigit(r rune) bool {
 func allSpaceWithNewline(str string) bool {
 	var seenNewline = false
 	for _, ch := range str {
-		if !unicode.IsSpace(ch) {
+		// (the language's whitespace: space, tab, CR, LF.  A no-break or ideographic
+		// space is a character of the text, as it is when other text surrounds it.)
+		if !isSpaceEOL(ch) {
 			return false
 		}
 		if isEndOfLine(ch) {
